@@ -104,6 +104,8 @@ def corpus_triples():
     out = [
         {'b': _md_nb({}), 'l': _md_nb({'test.png': {'image/png': 'AAAA'}}), 'r': _md_nb({'test.png': {'image/png': 'BBBB'}}), 'src': 'corpus:attachment-add-add'},
         {'b': _md_nb({'test.png': {'image/png': 'CCCC'}}), 'l': _md_nb({'test.png': {'image/png': 'AAAA'}}), 'r': _md_nb({'test.png': {'image/png': 'BBBB'}}), 'src': 'corpus:attachment-change-change'},
+        {'b': _md_nb({'test.png': {'image/svg+xml': '<svg>\n<circle r="2"/>\n</svg>'}}), 'l': _md_nb({'test.png': {'image/svg+xml': '<svg>\n<circle r="3"/>\n</svg>'}}),
+         'r': _md_nb({'test.png': {'image/svg+xml': '<svg>\n<circle r="4"/>\n</svg>'}}), 'src': 'corpus:attachment-text-change-change'},
         {'b': _code_nb([_disp(1)]), 'l': _code_nb([_disp(2), {'output_type': 'stream', 'name': 'stdout', 'text': 'hi\n'}]), 'r': _code_nb([_disp(3)]), 'src': 'corpus:output-metadata+append'},
         {'b': _code_nb([_stream('a\n')]), 'l': _code_nb([_stream('a\n'), _stream('local\n')]),
          'r': _code_nb([_stream('a\n'), {'output_type': 'display_data', 'data': {'text/plain': 'R'}, 'metadata': {}}]), 'src': 'corpus:outputs-both-append'},
@@ -197,12 +199,13 @@ def refine_signature(sig, t, detail):
                 and (cl.get('attachments') or {})[key] != (cr.get('attachments') or {})[key]
                 for cb, cl, cr in zip(t['b']['cells'], t['l']['cells'], t['r']['cells'])):
             return 'inline-attachments-add-add-missing-base-key'
-        mimes = set()
-        for nb in (t['b'], t['l'], t['r']):
-            for c in nb['cells']:
-                for a in (c.get('attachments') or {}).values():
-                    if isinstance(a, dict): mimes |= set(a.keys())
-        if key is not None and key in mimes and key not in (names_b | names_l | names_r):
+        # the key comes from a level below the attachments dict (mime type, or a line number of a text attachment): both sides
+        # changed the same existing attachment differently and the collected diffs were not wrapped up to the attachments level
+        if key is None: key = msg
+        def changed_both(cb, cl, cr):
+            ab, al, ar = (cb.get('attachments') or {}), (cl.get('attachments') or {}), (cr.get('attachments') or {})
+            return any(n in al and n in ar and al[n] != ab[n] and ar[n] != ab[n] and al[n] != ar[n] for n in ab)
+        if key not in (names_b | names_l | names_r) and any(changed_both(cb, cl, cr) for cb in t['b']['cells'] for cl in t['l']['cells'] for cr in t['r']['cells']):
             return 'collected-diffs-not-wrapped-to-level:inline-attachments'
     outs_clear_all = False
     cfg = t.get('cfg')
